@@ -156,10 +156,53 @@ func dirOf(p string) string {
 
 func baseOf(p string) string { return p[len(dirOf(p)):] }
 
+// sortCase: files whose revision counts and author counts are anti-correlated (few revisions by many authors vs many
+// revisions by one author), first-commit dates out of step with revision counts, and authors whose commit counts and
+// line counts are anti-correlated: every sort key of the summaries is distinguishable from the neighbouring columns.
+func sortCase(r *rand.Rand, id string, mode string) Case {
+	c := Case{Case: id, Mode: mode}
+	nf := 2 + r.Intn(3)
+	files := []string{}
+	day := 1
+	commit := func(a int, subj int, ops ...Op) {
+		day++
+		c.History = append(c.History, Commit{Author: authors[a%len(authors)], Date: fmt.Sprintf("2021-%02d-%02d", 1+day/28, 1+day%28),
+			Subject: subjects[subj], Cctype: cctypes[subj], Ops: ops})
+	}
+	// the file created LAST gets the most revisions; the one created first gets the most authors
+	for i := 0; i < nf; i++ {
+		files = append(files, fmt.Sprintf("%ss%d_%s", dirs[r.Intn(len(dirs))], i, bases[r.Intn(len(bases))]))
+		commit(i, r.Intn(4), Op{Op: "add", Path: files[i], Add: 2 + r.Intn(3)})
+	}
+	for i := 0; i < nf; i++ {
+		revs := 1 + i*2 // more revisions for later files
+		for k := 0; k < revs; k++ {
+			a := nf - 1 // one author
+			if i == 0 {
+				a = k + 1 // many authors on the first file
+			}
+			commit(a, r.Intn(4), Op{Op: "modify", Path: files[i], Add: 1 + r.Intn(2), Del: 0})
+		}
+	}
+	for k := 0; k < 1+r.Intn(3); k++ { // extra authors on the first file, big deletions by a frequent committer
+		commit(k+2, r.Intn(4), Op{Op: "modify", Path: files[0], Add: 1, Del: 0})
+	}
+	commit(nf-1, 0, Op{Op: "modify", Path: files[nf-1], Add: 0, Del: 2})
+	return c
+}
+
 func gen(seed int64, n int, tier string) []interface{} {
 	r := rand.New(rand.NewSource(seed))
 	var out []interface{}
 	for k := 0; k < n; k++ {
+		if k%5 == 4 {
+			mode := "synth"
+			if k%10 == 9 {
+				mode = "real"
+			}
+			out = append(out, sortCase(r, fmt.Sprintf("sort-%d-%d", seed, k), mode))
+			continue
+		}
 		mode := "real"
 		if k%3 == 2 {
 			mode = "synth"
